@@ -8,6 +8,8 @@ import (
 	"path/filepath"
 	"sync"
 
+	"git.sr.ht/~rockorager/vaxis"
+
 	"verif/harness/drivers/c17"
 	"verif/harness/trace"
 )
@@ -41,7 +43,17 @@ func runC17(o opts) error {
 			}
 			scns = append(scns, c17.Prefixed(wd, n/2)...)
 			for i := 0; i < nrand; i++ {
-				scns = append(scns, c17.Random(rng, wd, rlen/2+rng.Intn(rlen)))
+				sc := c17.Random(rng, wd, rlen/2+rng.Intn(rlen))
+				if i%3 == 1 { // typed with Caps Lock and / or Num Lock on (kitty keyboard protocol: lock bits in every key)
+					sc.Locks = []int{int(vaxis.ModCapsLock), int(vaxis.ModNumLock), int(vaxis.ModCapsLock | vaxis.ModNumLock)}[i/3%3]
+					sc.Gen += "+locks"
+				}
+				scns = append(scns, sc)
+			}
+			for _, sc := range c17.Exhaustive(wd, 1) {
+				sc.Locks = int(vaxis.ModCapsLock | vaxis.ModNumLock)
+				sc.Gen += "+locks"
+				scns = append(scns, sc)
 			}
 		}
 		scns = append(scns, c17.Corners()...)
